@@ -189,6 +189,72 @@ func (fi *FactInfo) buildCanon() {
 		}
 		return fmt.Sprintf("%p", v)
 	}
+	// a local struct that is only ever used field by field (built once, read back later: a parameter
+	// object handed between the phases of one function after helper expansion): a field that is stored
+	// exactly once, before every load of it, reads back as the stored value
+	for _, b := range fi.fn.Blocks {
+		for _, in := range b.Instrs {
+			al, ok := in.(*ssa.Alloc)
+			if !ok {
+				continue
+			}
+			if _, isStruct := derefType(al.Type()).Underlying().(*types.Struct); !isStruct {
+				continue
+			}
+			private := true
+			stores := map[int][]*ssa.Store{}
+			loads := map[int][]*ssa.UnOp{}
+			for _, r := range *al.Referrers() {
+				switch x := r.(type) {
+				case *ssa.DebugRef:
+				case *ssa.FieldAddr:
+					for _, fr := range *x.Referrers() {
+						switch y := fr.(type) {
+						case *ssa.DebugRef:
+						case *ssa.Store:
+							if y.Addr != ssa.Value(x) {
+								private = false
+							}
+							stores[x.Field] = append(stores[x.Field], y)
+						case *ssa.UnOp:
+							if y.Op != token.MUL {
+								private = false
+							}
+							loads[x.Field] = append(loads[x.Field], y)
+						default:
+							private = false
+						}
+					}
+				default:
+					private = false
+				}
+			}
+			if !private {
+				continue
+			}
+			for f, lds := range loads {
+				if len(stores[f]) != 1 {
+					continue
+				}
+				st := stores[f][0]
+				for _, ld := range lds {
+					before := false
+					if st.Block() == ld.Block() {
+						before = instrIndex(st) < instrIndex(ld)
+					} else {
+						before = st.Block().Dominates(ld.Block())
+					}
+					if before {
+						v := st.Val
+						if r, ok := fi.canonV[v]; ok {
+							v = r
+						}
+						fi.canonV[ld] = v
+					}
+				}
+			}
+		}
+	}
 	// dominator-tree preorder would be ideal; block order is enough because a representative is only
 	// used to look facts up, never to evaluate
 	for _, b := range fi.fn.Blocks {
